@@ -1,6 +1,110 @@
-(* C12 — placeholder while the floor is being built; replaced by the property theorems. *)
-From Coq Require Import ZArith NArith List Bool.
-From FEC Require Import Generated.DataLoaderConsts Models.DataLoaderM.
+(* C12 — data loader results do not depend on what was read before.
+   Property theorems only; each is closed by [exact <lemma>] and followed by Print Assumptions.
+   MODEL: Models/DataLoaderM.v ([read] = DataLoader.read()/_read() as it is now: cache-key fields and the deque-break
+   guard are regenerated from the source on every run).  All theorems hold for every environment [e]: every log, every
+   reader time-range selection, every set of discovered source ids, every time-alignment function; [env_ok] asks only
+   that time alignment keeps the keys of the dictionary it mutates and that the reader's selections keep file order. *)
+From Coq Require Import ZArith NArith List Bool Sorting.Sorted.
+From FEC Require Import Generated.DataLoaderConsts Models.DataLoaderM Proofs.DataLoaderP Proofs.DataLoaderW.
 Import ListNotations.
-Example C12_placeholder : norm_set [3; 1; 3; 2]%N = [1; 2; 3]%N.
-Proof. reflexivity. Qed.
+
+(* Caching is transparent: after ANY history of read() calls (any length, any arguments, including ignore_cache,
+   in-order, numpy, alignment, maxima of either sign), a read returns exactly what the same read returns on a freshly
+   opened loader: the same messages per type, numpy rows, message indices and bytes. *)
+Theorem C12_cache_transparent : forall (e : env) (h : list args) (a : args),
+  env_ok e -> snd (read e (run e init_state h) a) = fresh e a.
+Proof. exact cache_transparent. Qed.
+Print Assumptions C12_cache_transparent.
+
+(* The part of _read that is not modelled (establishing t0 on a log without index) is never reached. *)
+Theorem C12_read_never_unmodelled : forall (e : env) (h : list args) (a : args),
+  env_ok e -> snd (read e (run e init_state h) a) <> OutUnmodelled.
+Proof. exact read_never_unmodelled. Qed.
+Print Assumptions C12_read_never_unmodelled.
+
+(* The returned messages are those of the log reader under the same filters, limited to the first N (last N for
+   negative N) across all requested types in file order — provided the index pre-slice is not applied or the reader's
+   read-time tests drop nothing ([preslice_harmless]; its complement is the recorded finding below).  Dict output: *)
+Theorem C12_max_messages_semantics_partial : forall (e : env) (a : args),
+  a_order a = false -> a_align a = align_none -> (a_numpy a = false \/ a_keep a = true) -> preslice_harmless e a ->
+  exists r, fresh e a = OutDict r /\ map fst r = types_of e a /\
+            forall t d, lookup_data t r = Some d -> d_msgs d = map RFile (of_type t (spec_messages e a false)).
+Proof. exact max_messages_semantics_dict. Qed.
+Print Assumptions C12_max_messages_semantics_partial.
+
+(* ... and in-order output: *)
+Theorem C12_max_messages_semantics_in_order_partial : forall (e : env) (a : args),
+  env_ok e -> a_order a = true -> preslice_harmless e a ->
+  exists d, fresh e a = OutOrder d /\ d_msgs d = map RFile (spec_messages e a false) /\
+            Subseq (spec_messages e a false) (e_log e).
+Proof. exact max_messages_semantics_in_order. Qed.
+Print Assumptions C12_max_messages_semantics_in_order_partial.
+
+(* The full statement (no side condition) is false of the faithful model: with a source-id filter the index is sliced
+   to N entries before the read-time source test (DESIGN 21 #16; known finding). *)
+Definition C12_max_messages_semantics_full : Prop := max_messages_semantics_full.
+Theorem C12_max_messages_semantics_refuted : ~ C12_max_messages_semantics_full.
+Proof. exact max_messages_semantics_full_refuted. Qed.
+Print Assumptions C12_max_messages_semantics_refuted.
+
+(* the witness replayed on the implementation: read([Pose], source_ids=[0], max_messages=1) on [Pose(src 1), Pose(src 0),
+   Pose(src 0)] returns nothing, the reader's sequence limited to 1 is [Pose #1] *)
+Theorem C12_max_with_sources_refuted :
+  ords_of (fresh senv sargs) POSE = Some [] /\ map m_ord (spec_messages senv sargs false) = [1]%N /\
+  diag senv sargs = (true, 1).
+Proof. exact max_with_sources_witness. Qed.
+Print Assumptions C12_max_with_sources_refuted.
+
+(* In-order output is in exact file order, unconditionally and after any history: the returned messages form a
+   subsequence of the log (so ordinals increase strictly whenever the log's do). *)
+Theorem C12_in_order_is_file_order : forall (e : env) (h : list args) (a : args),
+  env_ok e -> a_order a = true ->
+  exists l, snd (read e (run e init_state h) a) = OutOrder (fold_left (add_message (a_bytes a) (a_idx a)) l empty_data) /\
+            d_msgs (fold_left (add_message (a_bytes a) (a_idx a)) l empty_data) = map RFile l /\
+            Subseq l (e_log e) /\
+            (StronglySorted N.lt (map m_ord (e_log e)) -> StronglySorted N.lt (map m_ord l)).
+Proof. exact in_order_file_order. Qed.
+Print Assumptions C12_in_order_is_file_order.
+
+(* What the pre-repair code did (the records of the findings that led to /repo dabd2e0 and 224b603). *)
+Theorem C12_cache_transparent_legacy_refuted :
+  exists e h a, env_ok e /\ snd (read_legacy e (run_gen legacy e init_state h) a) <> snd (read_legacy e init_state a).
+Proof. exact cache_transparent_legacy_refuted. Qed.
+Print Assumptions C12_cache_transparent_legacy_refuted.
+
+Theorem C12_legacy_sequences :
+  (* read([Pose], return_numpy=True, keep_messages=False); read([Pose]) -> 0 messages instead of 3 *)
+  (ords_of (snd (read_legacy wenv (run_gen legacy wenv init_state [with_numpy false (call [POSE])]) (call [POSE]))) POSE = Some [] /\
+   ords_of (snd (read_legacy wenv init_state (call [POSE]))) POSE = Some [1; 2; 8]%N) /\
+  (* read([Pose], max_messages=2); read([Pose, PoseAux], max_messages=2) -> 4 Pose entries instead of 2 *)
+  (ords_of (snd (read_legacy wenv (run_gen legacy wenv init_state [with_max 2 (call [POSE])]) (with_max 2 (call [POSE; POSE_AUX])))) POSE = Some [1; 2; 1; 2]%N /\
+   ords_of (snd (read_legacy wenv init_state (with_max 2 (call [POSE; POSE_AUX])))) POSE = Some [1; 2]%N) /\
+  (* read([Event], require_system_time=True, max_messages=-1) -> the first event instead of the last *)
+  (ords_of (snd (read_legacy wenv init_state (with_max (-1) (with_sys (call [EVENT]))))) EVENT = Some [0]%N /\
+   ords_of (fresh wenv (with_max (-1) (with_sys (call [EVENT])))) EVENT = Some [9]%N).
+Proof.
+  split; [exact legacy_numpy_clears_cache |]. split; [exact legacy_limit_mixed_across_types |].
+  split; [exact (proj1 legacy_last_n_returns_first_n) | exact (proj2 (proj2 legacy_last_n_returns_first_n))].
+Qed.
+Print Assumptions C12_legacy_sequences.
+
+(* Non-vacuity.  [env_ok] holds for the environment the extracted runner uses, whatever the log, source ids and
+   reader tables are; the side condition of the semantic theorems is met by concrete calls with positive and
+   negative maxima; the same call sequences that broke the old code are transparent now. *)
+Example C12_env_ok_nonvacuous : forall log avail tab nn, env_ok (concrete_env log avail tab nn).
+Proof. exact concrete_env_ok. Qed.
+
+Example C12_side_condition_nonvacuous :
+  preslice_harmless wenv (with_max 3 (call [POSE; POSE_AUX])) /\
+  preslice_harmless wenv (in_order (with_max (-2) (call [POSE; EVENT]))) /\
+  map m_ord (spec_messages wenv (with_max 3 (call [POSE; POSE_AUX])) false) = [1; 2; 3]%N /\
+  map m_ord (spec_messages wenv (in_order (with_max (-2) (call [POSE; EVENT]))) false) = [8; 9]%N /\
+  ords_of (fresh wenv (in_order (with_max (-2) (call [POSE; EVENT])))) 0%N = Some [8; 9]%N /\
+  StronglySorted N.lt (map m_ord (e_log wenv)).
+Proof. exact preslice_harmless_instances. Qed.
+
+Example C12_repaired_sequences :
+  ords_of (snd (read wenv (run wenv init_state [with_numpy false (call [POSE])]) (call [POSE]))) POSE = Some [1; 2; 8]%N /\
+  ords_of (snd (read wenv (run wenv init_state [with_max 2 (call [POSE])]) (with_max 2 (call [POSE; POSE_AUX])))) POSE = Some [1; 2]%N /\
+  ords_of (snd (read wenv (run wenv init_state [call [POSE]]) (call [POSE; POSE_AUX]))) POSE = Some [1; 2; 8]%N.
+Proof. exact current_sequences_transparent. Qed.
